@@ -18,7 +18,7 @@ RULE = ("cases = seeded random aerostructural configurations (tube and wingbox, 
         "aerodynamic analysis.  Non-trivial = converged coupling with non-zero displacement and all comparisons evaluated")
 ASSUMPTIONS = ["coupled solver converged to a residual of 1e-10 (err_on_non_converge=True); comparisons through it use 1e-7", "reference VLM / frame solver"]
 REQUIRED_FAMILIES = ["fixed/aero_forces_from_def_mesh", "fixed/loads_equivalent_force", "fixed/loads_equivalent_moment", "fixed/refvlm_forces", "fixed/disp_from_loads", "fixed/refframe_disp", "solvers/state", "solvers/outputs",
-                     "path/initial_guess", "path/from_other_point", "multipoint/equals_single_point", "multipoint/isolation", "stiff/tends_to_rigid"]
+                     "path/initial_guess", "path/from_other_point", "multipoint/equals_single_point", "multipoint/isolation", "stiff/tends_to_rigid", "shipped/loud_or_converged"]
 LEVEL_TEXT = ("converged coupled states of real AerostructPoint models are re-derived through independent compositions (fresh aero-only "
               "and structure-only problems, reference solvers), through every supported solver pairing, from random initial guesses and "
               "other design points, and inside multipoint models")
